@@ -121,16 +121,6 @@ Proof.
   destruct H as [H|[]]. subst sg. cbn. lia.
 Qed.
 
-(* int64 overflow of offset+length (finding F15): the loop takes nothing and reports no error *)
-Lemma fs_loop_overflow rest : forall i pos offset len,
-  exists j p, fs_loop rest i pos offset len None = FsSegs [] j p.
-Proof.
-  induction rest as [|sl r IH]; intros i pos offset len; cbn.
-  - eauto.
-  - destruct ((pos + sl <=? offset) || (sl =? 0)); [apply IH|].
-    rewrite orb_true_r. eauto.
-Qed.
-
 (* =========================== Go manifest package: firstBlock =========================== *)
 Lemma nth_error_offsets_from sizes : forall o pre rest, sizes = pre ++ rest ->
   nth_error (offsets_from o sizes) (List.length pre) = Some (o + total pre).
@@ -327,17 +317,30 @@ Proof.
     unfold ref. subst sizes. rewrite (ref_from_skip pre (s :: rest) 0 0) by lia. reflexivity.
 Qed.
 
-(* no_panic_gomanifest_partial: whatever the block sizes, a range that passes the parser's check and does not
-   overflow never panics (with len = 0 the code does not search at all) *)
-Theorem go_map_no_panic : forall sizes pos len,
-  0 < len -> go_range_ok sizes pos len = true -> pos + len < 2 ^ 64 -> go_map sizes pos len <> GPanic.
+(* the parser's range check (with the wrap test of commit b3717b9) implies that nothing wraps *)
+Lemma go_range_ok_nowrap sizes pos len : pos < 2 ^ 64 -> len < 2 ^ 64 -> go_range_ok sizes pos len = true ->
+  pos + len < 2 ^ 64 /\ pos + len <= total sizes.
 Proof.
-  intros sizes pos len Hlen Hok Hsmall. unfold go_range_ok, w64 in Hok. rewrite N.mod_small in Hok by exact Hsmall.
-  destruct (go_map_ref sizes pos len Hlen ltac:(lia) Hsmall) as (l & H & _). rewrite H. discriminate.
+  intros Hp Hl H. unfold go_range_ok, w64 in H. apply andb_prop in H. destruct H as [H1 H2].
+  destruct (N.lt_ge_cases (pos + len) (2 ^ 64)) as [Hs|Hs].
+  - rewrite N.mod_small in H1 by exact Hs. lia.
+  - exfalso. assert (Hm : (pos + len) mod 2 ^ 64 = pos + len - 2 ^ 64).
+    { rewrite <- (N.mod_small (pos + len - 2 ^ 64) (2 ^ 64)) by lia.
+      replace (pos + len) with ((pos + len - 2 ^ 64) + 1 * 2 ^ 64) at 1 by lia. apply N.mod_add. lia. }
+    rewrite Hm in H2. lia.
 Qed.
-(* ... and F14: with the uint64 sum wrapping, the check passes and the search fails *)
-Lemma go_map_overflow_panics : go_range_ok [3] 18446744073709551615 1 = true /\ go_map [3] 18446744073709551615 1 = GPanic.
-Proof. split; vm_compute; reflexivity. Qed.
+(* no_panic, range level: every file token (uint64 fields) that the parser accepts is mapped without panic, whatever
+   the block sizes (with len = 0 the code does not search at all) *)
+Theorem go_map_no_panic : forall sizes pos len,
+  0 < len -> pos < 2 ^ 64 -> len < 2 ^ 64 -> go_range_ok sizes pos len = true -> go_map sizes pos len <> GPanic.
+Proof.
+  intros sizes pos len Hlen Hp Hl Hok.
+  destruct (go_range_ok_nowrap sizes pos len Hp Hl Hok) as [Hs Hin].
+  destruct (go_map_ref sizes pos len Hlen Hin Hs) as (l & H & _). rewrite H. discriminate.
+Qed.
+(* the former finding F14: the wrapped sum is now rejected by the check *)
+Lemma go_range_rejects_overflow : go_range_ok [3] 18446744073709551615 1 = false.
+Proof. vm_compute. reflexivity. Qed.
 
 (* =========================== Python =========================== *)
 Lemma nth_error_ranges_from sizes : forall o i,
